@@ -13,9 +13,43 @@ def rec(name, fields, ns=None, **kw):
 def gen_set(rng, k):
     """returns (list of schema json, description)"""
     shape = rng.choice(['chain', 'diamond', 'cycle', 'cross-namespace', 'nested-definition-referenced', 'self-recursive+dep', 'dup-top-level', 'dup-nested-vs-top',
-                        'dup-nested-in-two', 'alias-collides-with-name', 'dangling', 'enum-fixed-mix', 'leading-dot-ref', 'independent'])
+                        'dup-nested-in-two', 'alias-collides-with-name', 'dangling', 'enum-fixed-mix', 'leading-dot-ref', 'independent', 'random-graph', 'random-graph', 'random-graph'])
     ns = rng.choice([None, 'a', 'a.b', 'com.x'])
     q = (lambda n: (ns + '.' + n) if ns else n)
+    if shape == 'random-graph':
+        nss = [rng.choice([None, 'a', 'a.b', 'com.x']) for _ in range(2)]
+        kinds = [rng.choice(['record', 'record', 'record', 'enum', 'fixed']) for _ in range(k)]
+        kinds[0] = 'record'
+        nsof = [rng.choice(nss) for _ in range(k)]
+        full = [(nsof[i] + '.' if nsof[i] else '') + 'T%d' % i for i in range(k)]
+
+        def refname(i, j):
+            # from inside i's namespace: full name, or the simple name when the namespaces agree, or leading dot is avoided
+            if nsof[i] == nsof[j] and rng.random() < 0.5:
+                return 'T%d' % j
+            if nsof[j] is None:
+                return None     # a null-namespace type cannot be named from inside another namespace without the leading dot
+            return full[j]
+        out = []
+        for i in range(k):
+            if kinds[i] == 'enum':
+                out.append({'type': 'enum', 'name': full[i], 'symbols': ['A', 'B', 'C'][:rng.randint(1, 3)]})
+                continue
+            if kinds[i] == 'fixed':
+                out.append({'type': 'fixed', 'name': full[i], 'size': rng.randint(0, 5)})
+                continue
+            fs = [('v', rng.choice(['int', 'string', 'long', 'bytes']))]
+            for j in range(k):
+                if rng.random() < 0.55:
+                    rn = refname(i, j)
+                    if rn is None:
+                        continue
+                    back = j <= i and kinds[j] == 'record'
+                    wrap = rng.choice(['opt', 'arr', 'map'] if back else ['plain', 'plain', 'opt', 'arr', 'map'])
+                    t = {'plain': rn, 'opt': ['null', rn], 'arr': {'type': 'array', 'items': rn}, 'map': {'type': 'map', 'values': rn}}[wrap]
+                    fs.append(('f%d' % j, t))
+            out.append(rec('T%d' % i, fs, nsof[i]))
+        return out, shape
     if shape == 'chain':
         names = ['N%d' % i for i in range(k)]
         out = []
@@ -65,8 +99,12 @@ def gen_set(rng, k):
                rec('Thing', [('c', q('Color')), ('h', q('Hash')), ('cs', {'type': 'map', 'values': q('Color')})], ns)]
         return out, shape
     if shape == 'leading-dot-ref':
-        out = [rec('Order', [('total', 'Money' if ns is None else 'Money')], None), rec('Money', [('cur', 'Currency'), ('amount', 'long')], None),
+        # a namespaced record reaches inputs of the null namespace through the leading-dot notation
+        ons = rng.choice(['shop', 'a.b', 'com.x'])
+        out = [rec('Order', [('total', '.Money'), ('tip', ['null', '.Money'])], ons), rec('Money', [('cur', 'Currency'), ('amount', 'long')], None),
                {'type': 'enum', 'name': 'Currency', 'symbols': ['EUR', 'USD']}]
+        if k > 3:
+            out.append(rec('Basket', [('orders', {'type': 'array', 'items': ons + '.Order'}), ('sum', '.Money')], rng.choice(['shop', 'other'])))
         return out, shape
     out = [rec('I%d' % i, [('v', 'int')], ns) for i in range(k)]
     return out, shape
@@ -87,3 +125,64 @@ def ground_truth(schemas):
     except names.SchemaError as e:
         return False, e.rule
     return True, None
+
+
+def _refs(node, out, seen):
+    k = node['k']
+    if k == 'ref':
+        out.add(node['full'])
+    elif k == 'array':
+        _refs(node['items'], out, seen)
+    elif k == 'map':
+        _refs(node['values'], out, seen)
+    elif k == 'union':
+        for b in node['branches']:
+            _refs(b, out, seen)
+    elif k == 'record' and id(node) not in seen:
+        seen.add(id(node))
+        for f in node['fields']:
+            _refs(f['type'], out, seen)
+
+
+def dep_order(schemas):
+    """indices in an order where every schema comes after the schemas whose definitions it references
+    (ResolvedSchema::new_with_schemata documents that it resolves in list order); None for a cycle"""
+    from ..ref import names
+    defs, refs = [], []
+    for j in schemas:
+        p = names.Parser()
+        n = p.parse(j, None)
+        r = set()
+        _refs(n, r, set())
+        defs.append(set(p.env))
+        refs.append(r - set(p.env))
+    k = len(schemas)
+    deps = [set(j for j in range(k) if j != i and refs[i] & defs[j]) for i in range(k)]
+    order, done = [], set()
+    while len(order) < k:
+        nxt = [i for i in range(k) if i not in done and deps[i] <= done]
+        if not nxt:
+            return None
+        order.append(nxt[0])
+        done.add(nxt[0])
+    return order
+
+
+def closed_counting_aliases(schemas):
+    """every reference resolves if aliases of named types count as names too"""
+    from ..ref import names
+    p = names.Parser()
+    try:
+        nodes = [p.parse(j, None) for j in schemas]
+    except names.SchemaError:
+        return False
+    env = dict(p.env)
+    for n in list(p.env.values()):
+        for a in (n.get('aliases') or []):
+            env.setdefault(a, n)
+    try:
+        for n in nodes:
+            names.check_refs(n, env)
+    except names.SchemaError:
+        return False
+    return True
